@@ -11,7 +11,7 @@ PYTHONPATH=$wt /venv/bin/python $d/demo.py > /tmp/demo_clean_$$.out 2>&1; echo "
 git apply $d/patch.diff && echo "patch applied"
 PYTHONPATH=$wt /venv/bin/python $d/demo.py > /tmp/demo_seeded_$$.out 2>&1; echo "demo with change: exit $?"
 tail -3 /tmp/demo_seeded_$$.out | cut -c1-300
-PYTHONPATH=$wt /venv/bin/python -m pytest -q -p no:cacheprovider --timeout=900 -n 10 tests 2>&1 | grep -E "^FAILED|passed|failed" | sed 's/ - .*//' | sort > /tmp/tests_$$.out
+PYTHONPATH=$wt /venv/bin/python -m pytest -q -p no:cacheprovider --timeout=900 -n ${CONFIRM_N:-10} tests 2>&1 | grep -E "^FAILED|passed|failed" | sed 's/ - .*//' | sort > /tmp/tests_$$.out
 echo "tests with change: $(grep -E 'passed|failed' /tmp/tests_$$.out | tail -1)"
 echo "failures not in baseline:"
 grep ^FAILED /tmp/tests_$$.out | grep -v -E "test_color_conversion|test_completeness|test_tokenisation_errors|test_parallel|test_vc2_test_case_generator_worker.py::test_roundtrip"
